@@ -141,11 +141,11 @@ PROPS["C17"]["assumptions"] = ["as C01/C02"]
 
 PROPS["C05"] = {
     "level": "proof",
-    "prop_modules": ["Flounder.Props.C05", "Flounder.Props.SearchRanked", "Flounder.Props.ChessSearch", "Flounder.Props.C05Range"],
+    "prop_modules": ["Flounder.Props.C05", "Flounder.Props.SearchRanked", "Flounder.Props.ChessSearch", "Flounder.Props.C05Range", "Flounder.Lemmas.QSpec", "Flounder.Props.QSpecChess", "Flounder.Lemmas.QBudget"],
     "budget": {"quick": [("c05", 60), ("tie", 25), ("c09", 40)], "thorough": [("c05", 1200), ("tie", 500), ("c09", 600)], "search": [("c05", 2400), ("tie", 1000), ("c09", 1200)]},
     "rule": "positions with a measured finite quiescence tree (small-material families + play-outs, accepted only if every successor to the search depth has a quiescence tree under a node cap; reject rate printed): fresh searcher, iterative deepening to depth 1..3, score (won/lost beyond the window) and returned move compared with plain minimax Spec.V computed by the Lean spec; quiescence value vs Spec.Q; plus the strict tie of the search model: full result incl. node counts, poll counts, reuse counters and a digest of the whole transposition table after every (possibly interrupted) search, and order_moves/order_captures outputs; every key table drawn is checked for KeysGood (non-zero, pairwise distinct); searches on the engine's own searcher with a game history in place (generator c09) are tied to the model incl. node counts",
     "trusted_base": SEARCH_TB + [HASHINJ],
-    "assumptions": [HASHINJ, "QFinite (the quiescence tree of every leaf is finite) — hypothesis of the theorems, measured by the generator", "no record cached by a deeper search was reused (instrumented per run: deeper=0)"],
+    "assumptions": [HASHINJ, "the reference leaf value Spec.Q descends only into children that can change the value (mating moves and moves that improve the mover's static score); it equals the plain stand-pat minimax value wherever the plain tree is finite (Qplain_agrees), solves the plain minimax equations wherever defined (Q_is_minimax) and is defined on EVERY good chess board (chess_Q_total) — QFinite is no longer a hypothesis for chess (chess_find_best_move_value_total)", "no record cached by a deeper search was reused (instrumented per run: deeper=0)"],
     "finding_key": lambda sf: None,
     "timeout": 3000,
 }
